@@ -445,7 +445,12 @@ func rpcResultRequestID(msg []byte) int {
 func (m *MTProto) tryToProcessErr(e *ErrResponseCode) error {
 	switch e.Message {
 	case "PHONE_MIGRATE_X":
-		newIP, found := m.dclist[e.AdditionalInfo.(int)]
+		dc, ok := e.AdditionalInfo.(int)
+		if !ok {
+			// server sent this text literally, without number of DC: nowhere to migrate, it's a common error
+			return e
+		}
+		newIP, found := m.dclist[dc]
 		if !found {
 			return errors.Wrapf(e, "DC with id %v not found", e.AdditionalInfo)
 		}
